@@ -11,7 +11,7 @@ import ast
 from typing import Dict, List, Optional, Tuple
 
 from ..index import AnalysisError, call_name, norm, norm1, names_in
-from .common import calls, enclosing, enclosing_all, fctx, in_body, is_name, method_calls, stmts, store_targets
+from .common import calls, enclosing, enclosing_all, fctx, in_body, is_name, kwarg, method_calls, stmts, store_targets
 from .groups import check_band_values
 
 LEVEL = "other"
@@ -32,70 +32,149 @@ TAB = "wannierberri/calculators/tabulate.py"
 WAN = "wannierberri/wannierisation/wannierise.py"
 
 
-def _border_signature(f) -> Dict[str, object]:
-    sig: Dict[str, object] = {"cmp": None, "plus1": False, "start0": False, "endlen": False, "pairs": False, "array": None}
+GAP_EXTRACT = ("np.where", "numpy.where", "np.nonzero", "numpy.nonzero", "np.flatnonzero", "numpy.flatnonzero", "np.argwhere", "numpy.argwhere")
+
+
+def _gap_array(e: ast.AST) -> Optional[str]:
+    """X when e is X[1:] − X[:-1] or np.diff(X)"""
+    while isinstance(e, ast.Call) and call_name(e) in ("np.asarray", "np.array") and e.args:
+        e = e.args[0]
+    if isinstance(e, ast.BinOp) and isinstance(e.op, ast.Sub) and isinstance(e.left, ast.Subscript) and isinstance(e.right, ast.Subscript) \
+            and norm(e.left.slice) == "1:" and norm(e.right.slice) == ":-1" and norm(e.left.value) == norm(e.right.value):
+        return norm(e.left.value)
+    if isinstance(e, ast.Call) and call_name(e) in ("np.diff", "numpy.diff") and len(e.args) == 1 and not e.keywords:
+        return norm(e.args[0])
+    return None
+
+
+def _starts_form(e: ast.AST) -> Optional[Tuple[ast.Compare, str, bool]]:
+    """(comparison, gap array, plus1) when the de-referenced `e` is positions(gap(X) <cmp> thr) [+ 1]"""
+    while isinstance(e, ast.Call) and call_name(e) in ("list", "tuple", "np.array", "np.asarray") and e.args:
+        e = e.args[0]
+    plus1 = False
+    if isinstance(e, ast.BinOp) and isinstance(e.op, ast.Add):
+        if isinstance(e.right, ast.Constant) and e.right.value == 1:
+            e, plus1 = e.left, True
+        elif isinstance(e.left, ast.Constant) and e.left.value == 1:
+            e, plus1 = e.right, True
+    # positions: np.where(c)[0] | np.nonzero(c)[0] | np.flatnonzero(c) | np.argwhere(c)[:, 0] / .ravel() / .flatten()
+    if isinstance(e, ast.Call) and isinstance(e.func, ast.Attribute) and e.func.attr in ("ravel", "flatten") and not e.args:
+        e = e.func.value
+    if isinstance(e, ast.Subscript) and norm(e.slice) in ("0", ":, 0"):
+        e = e.value
+    if not (isinstance(e, ast.Call) and call_name(e) in GAP_EXTRACT and len(e.args) == 1):
+        return None
+    c = e.args[0]
+    if not (isinstance(c, ast.Compare) and len(c.ops) == 1):
+        return None
+    arr = _gap_array(c.left)
+    if arr is None:
+        return None
+    return c, arr, plus1
+
+
+def _len_of(e: ast.AST) -> Optional[str]:
+    if isinstance(e, ast.Call) and call_name(e) == "len" and len(e.args) == 1:
+        return norm(e.args[0])
+    if isinstance(e, ast.Attribute) and e.attr == "size":
+        return norm(e.value)
+    if isinstance(e, ast.Subscript) and isinstance(e.value, ast.Attribute) and e.value.attr == "shape" and norm(e.slice) == "0":
+        return norm(e.value.value)
+    return None
+
+
+def _border_signature(f, idx=None) -> Dict[str, object]:
+    """How a function turns a sorted array into groups: the comparison on the gaps, the +1 offset, the 0 / len(X) sentinels, the
+    pairing of consecutive borders and an optional `even borders only` filter — read from the data flow into the pairing site
+    (zip(b, b[1:]) / zip(b[:-1], b[1:]) / pairwise(b) / np.split(X, starts)), whatever the spelling of the intermediate steps."""
+    from ..sem import Sem, deref, seq_segments, comp_binding
+    S = Sem(idx, f)
+    sig: Dict[str, object] = {"cmp": None, "plus1": False, "start0": False, "endlen": False, "pairs": False, "array": None,
+                              "filter": None, "filter_cond": None, "thr": None}
+    sites = []   # (borders expression | None, split call | None, node)
     for n in ast.walk(f.node):
-        if isinstance(n, ast.Compare) and len(n.ops) == 1:
-            l = n.left
-            arr = None
-            if isinstance(l, ast.BinOp) and isinstance(l.op, ast.Sub) and isinstance(l.left, ast.Subscript) \
-                    and isinstance(l.right, ast.Subscript) and norm(l.left.slice) == "1:" and norm(l.right.slice) == ":-1" \
-                    and norm(l.left.value) == norm(l.right.value):
-                arr = norm(l.left.value)
-            elif isinstance(l, ast.Call) and call_name(l) in ("np.diff", "numpy.diff") and l.args:
-                arr = norm(l.args[0])
-            if arr is not None:
-                sig["cmp"] = type(n.ops[0]).__name__
-                sig["array"] = arr
+        if not isinstance(n, ast.Call):
+            continue
+        cn = call_name(n)
+        if cn == "zip" and len(n.args) == 2 and isinstance(n.args[1], ast.Subscript) and norm(n.args[1].slice) == "1:":
+            a0, a1 = n.args[0], n.args[1].value
+            if norm(a0) == norm(a1):
+                sites.append((a0, None, n))
+            elif isinstance(a0, ast.Subscript) and norm(a0.slice) == ":-1" and norm(a0.value) == norm(a1):
+                sites.append((a0.value, None, n))
+        elif cn in ("pairwise", "itertools.pairwise") and len(n.args) == 1:
+            sites.append((n.args[0], None, n))
+        elif cn in ("np.split", "numpy.split") and len(n.args) == 2:
+            sites.append((None, n, n))
+    for b, split, node in sites:
+        at = S.du.node_of_expr(node)
+        segs = None
+        if split is not None:
+            segs = [("el", ast.Constant(value=0), at), ("seq", split.args[1], at),
+                    ("el", ast.Call(func=ast.Name(id="len", ctx=ast.Load()), args=[split.args[0]], keywords=[]), at)]
+            b_deref = None
+        else:
+            # an optional filter `b = [i for i in b if cond(i)]` (conditional or not) between the construction and the pairing
+            flt = None
+            cur, cur_at = b, at
+            for _ in range(3):
+                if isinstance(cur, ast.Name) and comp_binding(S, cur) is None:
+                    ds = S.du.reaching(cur.id, cur_at)
+                    fd = [d for d in ds if d.value is not None and isinstance(d.value, (ast.ListComp, ast.GeneratorExp)) and len(d.value.generators) == 1
+                          and d.value.generators[0].ifs and isinstance(d.value.elt, ast.Name) and isinstance(d.value.generators[0].target, ast.Name)
+                          and d.value.elt.id == d.value.generators[0].target.id and isinstance(d.value.generators[0].iter, ast.Name)]
+                    if fd and len(ds) <= 2:
+                        flt = fd[0]
+                        others = [d for d in ds if d is not fd[0]]
+                        inner = fd[0].value.generators[0].iter
+                        if others and not (inner.id == cur.id and S.du.reaching(inner.id, fd[0].node) == others):
+                            break
+                        cur, cur_at = inner, fd[0].node
+                        continue
+                break
+            if flt is not None:
+                sig["filter"] = flt.value
+                sig["filter_cond"] = norm(flt.value.generators[0].ifs[0]).replace(flt.value.generators[0].target.id, "_")
+                sig["filter_guard"] = [(t, p) for t, p, _ in S.conditions(flt.stmt, resolve=False)]
+            if isinstance(cur, ast.Name) and comp_binding(S, cur) is None and cur.id in S._mutated:
+                segs = seq_segments(S, cur, cur_at)
+            else:
+                d_ = deref(S, cur, at=cur_at)
+                segs = seq_segments(S, d_, cur_at)
+        if not segs:
+            continue
+        in_f = {id(x) for x in ast.walk(f.node)}
+
+        def dd(seg):
+            return deref(S, seg[1], at=seg[2]) if id(seg[1]) in in_f else seg[1]
+        st, k_st = None, None
+        for k_, sg_ in enumerate(segs):
+            if sg_[0] == "seq":
+                st = _starts_form(dd(sg_))
+                if st is not None:
+                    k_st = k_
+                    break
+        if st is None:
+            continue
+        c, arr, plus1 = st
+        first = segs[0] if k_st == 1 else None
+        last = segs[-1] if k_st == len(segs) - 2 else None
+        f_d = dd(first) if first is not None else None
+        l_d = dd(last) if last is not None else None
+        sig["pairs"] = True
+        sig["cmp"] = type(c.ops[0]).__name__
+        sig["array"] = arr
+        sig["thr"] = norm(c.comparators[0])
+        sig["plus1"] = plus1
+        sig["start0"] = first is not None and first[0] == "el" and isinstance(f_d, ast.Constant) and f_d.value == 0 and not isinstance(f_d.value, bool)
+        ln = _len_of(l_d) if last is not None and last[0] == "el" else None
+        sig["endlen"] = ln if ln is not None else False
+        # the original comparison node (for reporting)
+        for n in ast.walk(f.node):
+            if isinstance(n, ast.Compare) and len(n.ops) == 1 and type(n.ops[0]) is type(c.ops[0]) and norm(n.comparators[0]) == norm(c.comparators[0]):
                 sig["cmp_node"] = n
-                # np.where(<cmp>)[0] + 1
-                for m in ast.walk(f.node):
-                    if isinstance(m, ast.BinOp) and isinstance(m.op, ast.Add) and isinstance(m.right, ast.Constant) \
-                            and m.right.value == 1 and isinstance(m.left, ast.Subscript) and norm(m.left.slice) == "0" \
-                            and isinstance(m.left.value, ast.Call) and call_name(m.left.value) in ("np.where", "numpy.where") \
-                            and any(x is n for x in ast.walk(m.left.value)):
-                        sig["plus1"] = True
-                    # np.flatnonzero(<cmp>) + 1 / np.nonzero(<cmp>)[0] + 1
-                    if isinstance(m, ast.BinOp) and isinstance(m.op, ast.Add) and isinstance(m.right, ast.Constant) and m.right.value == 1:
-                        l2 = m.left
-                        if isinstance(l2, ast.Subscript) and norm(l2.slice) == "0" and isinstance(l2.value, ast.Call) and call_name(l2.value) in ("np.nonzero", "numpy.nonzero"):
-                            l2 = l2.value
-                        if isinstance(l2, ast.Call) and call_name(l2) in ("np.flatnonzero", "numpy.flatnonzero", "np.nonzero", "numpy.nonzero") \
-                                and any(x is n for x in ast.walk(l2)):
-                            sig["plus1"] = True
-                            sig["starts_node"] = m
-    # np.split(A, starts): the cuts 0 | starts | len(A) and the pairing of consecutive cuts are what np.split does
-    if sig.get("starts_node") is not None:
-        pm = fctx(f)[2]
-        du = fctx(f)[1]
-        st = enclosing(pm, sig["starts_node"], ast.stmt)
-        sname = st.targets[0].id if isinstance(st, ast.Assign) and isinstance(st.targets[0], ast.Name) and st.value is sig["starts_node"] else None
-        for c in ast.walk(f.node):
-            if isinstance(c, ast.Call) and call_name(c) in ("np.split", "numpy.split") and len(c.args) == 2 and \
-                    (c.args[1] is sig["starts_node"] or (sname is not None and norm(c.args[1]) == sname)):
-                sig["start0"], sig["endlen"], sig["pairs"] = True, norm(c.args[0]), True
-    for n in ast.walk(f.node):
-        if isinstance(n, ast.BinOp) and isinstance(n.op, ast.Add):
-            # [0] + list(…) + [len(X)]
-            parts = []
-            x = n
-            while isinstance(x, ast.BinOp) and isinstance(x.op, ast.Add):
-                parts.append(x.right)
-                x = x.left
-            parts.append(x)
-            parts.reverse()
-            if len(parts) == 3 and isinstance(parts[0], ast.List) and isinstance(parts[2], ast.List):
-                if len(parts[0].elts) == 1 and isinstance(parts[0].elts[0], ast.Constant) and parts[0].elts[0].value == 0:
-                    sig["start0"] = True
-                e = parts[2].elts[0] if parts[2].elts else None
-                if isinstance(e, ast.Call) and call_name(e) == "len":
-                    sig["endlen"] = norm(e.args[0])
-        if isinstance(n, ast.Call) and call_name(n) == "zip" and len(n.args) == 2 and isinstance(n.args[1], ast.Subscript) \
-                and norm(n.args[1].slice) == "1:" and (norm(n.args[1].value) == norm(n.args[0]) or (
-                    isinstance(n.args[0], ast.Subscript) and norm(n.args[0].slice) == ":-1" and norm(n.args[0].value) == norm(n.args[1].value))):
-            sig["pairs"] = True
-        if isinstance(n, ast.Call) and call_name(n) in ("pairwise", "itertools.pairwise") and len(n.args) == 1:
-            sig["pairs"] = True
+        sig["site"] = node
+        break
     return sig
 
 
@@ -107,11 +186,13 @@ def run(ctx) -> None:
     sites = [idx.function(TET, "get_borders"), idx.function(UT, "find_degen"), idx.function(DK, "Data_K.degen"),
              idx.function(BK, "BKVectors.k_to_shells")]
     for f in sites:
-        s = _border_signature(f)
+        s = _border_signature(f, idx)
         r1.instance(f"{f.short}: cmp={s['cmp']} +1={s['plus1']} start0={s['start0']} end=len({s['endlen']}) pairs={s['pairs']}")
         node = s.get("cmp_node") or f.node
         if s["cmp"] is None:
-            raise AnalysisError(f"{f.short}: gap comparison `x[1:] - x[:-1] > thr` (or np.diff) not found")
+            r1.expect(False, "", f, f.node, f"{f.short}: no `borders → consecutive pairs` construction found whose borders are "
+                      f"0 | positions(gap(x) ⋛ thr) [+1] | len(x)")
+            continue
         r1.check(s["cmp"] == "Gt", f"{f.name}: a border is where the gap is strictly greater than the threshold", f, node,
                  f"{f.name} splits groups where the gap is `{s['cmp']}` the threshold; its siblings use `>`: bands exactly "
                  f"`thresh` apart (or, with `<`, every degenerate pair) are grouped differently here than elsewhere")
@@ -122,71 +203,158 @@ def run(ctx) -> None:
         r1.check(bool(s["pairs"]), f"{f.name}: groups are consecutive border pairs zip(b, b[1:])", f, node,
                  f"{f.name} does not pair consecutive borders")
     gb = sites[0]
-    t = norm(gb.node).replace(" ", "")
-    r1.check("ifdegen_Kramers:" in t and "[iforiinbordersifi%2==0]" in t, "Kramers: only even borders are kept", gb, gb.node,
+    sg = _border_signature(gb, idx)
+    kr = next((p_ for p_ in gb.params if "kramers" in p_.lower()), None)
+    if kr is None:
+        raise AnalysisError("get_borders: no degen_Kramers parameter")
+    r1.check(sg.get("filter_cond") == "_ % 2 == 0" and (kr, True) in (sg.get("filter_guard") or []), "Kramers: only even borders are kept", gb, gb.node,
              "get_borders no longer restricts borders to even indices when degen_Kramers is requested", stmt="Kramers filter")
     gbr = idx.function(TET, "get_bands_in_range")
-    r1.check("get_borders(Eband, degen_thresh, degen_Kramers=degen_Kramers)" in norm(gbr.node), "get_bands_in_range uses get_borders",
-             gbr, gbr.node, "get_bands_in_range no longer takes its groups from get_borders", stmt="get_borders call")
+    gcs = [c for c in calls(gbr.node, "get_borders", suffix=False)]
+    okc = False
+    if len(gcs) == 1:
+        from ..sem import Sem
+        GS = Sem(idx, gbr)
+        a0, a1, a2 = kwarg(gcs[0], gb.params[0], 0), kwarg(gcs[0], gb.params[1], 1), kwarg(gcs[0], gb.params[2], 2)
+        okc = a0 is not None and a1 is not None and a2 is not None and norm(a0) == "Eband" and norm(GS.resolve(a1, GS.du.node_of_expr(gcs[0]))) == "degen_thresh" \
+            and norm(GS.resolve(a2, GS.du.node_of_expr(gcs[0]))) == "degen_Kramers"
+    r1.check(okc, "get_bands_in_range takes its groups from get_borders(Eband, degen_thresh, degen_Kramers)",
+             gbr, gcs[0] if gcs else gbr.node, "get_bands_in_range no longer takes its groups from get_borders with its own threshold / Kramers setting",
+             stmt="get_borders call")
 
     # ---------------------------------------------------------------- R15.2
     r2 = ctx.rule("R15.2", "window edges remove/add whole multiplets", min_instances=2)
-    f = idx.function(UT, "select_window_degen")
-    cfg, du, pm = fctx(f)
-    edge_loops = [s for s in stmts(f.node) if isinstance(s, ast.For) and "thresh" in norm(s)]
+    from ..sem import Sem, inline_private_helpers
+    from ..algebra import Rat, to_rat
+    f0 = idx.function(UT, "select_window_degen")
+    f = inline_private_helpers(idx, f0)
+    S = Sem(idx, f)
+    cfg, du, pm = S.cfg, S.du, S.pm
+    if len(f0.params) < 5:
+        raise AnalysisError("select_window_degen: signature changed")
+    Ep, thr_p = f0.params[0], f0.params[1]
+    inc_p = next((p_ for p_ in f0.params if "include" in p_), None)
+    if inc_p is None:
+        raise AnalysisError("select_window_degen: no include_degen parameter")
+
+    def mask_store(st: ast.stmt) -> Optional[bool]:
+        """True / False for `mask[...] = True / False`"""
+        if isinstance(st, ast.Assign) and len(st.targets) == 1 and isinstance(st.targets[0], ast.Subscript) and isinstance(st.targets[0].value, ast.Name) \
+                and isinstance(st.value, ast.Constant) and isinstance(st.value.value, bool):
+            return st.value.value
+        return None
+
+    def gap_tests(e: ast.AST) -> List[Tuple[ast.Compare, ast.AST, ast.AST]]:
+        """comparisons `E[a] − E[b] < thresh` (or thresh > E[a] − E[b]) inside e → (node, a, b)"""
+        out = []
+        for c in ast.walk(e):
+            if isinstance(c, ast.Compare) and len(c.ops) == 1:
+                l, r_, op = c.left, c.comparators[0], c.ops[0]
+                if isinstance(op, (ast.Gt, ast.GtE)) and norm(l) == thr_p:
+                    l, r_, op = r_, l, (ast.Lt() if isinstance(op, ast.Gt) else ast.LtE())
+                if isinstance(op, ast.Lt) and norm(r_) == thr_p and isinstance(l, ast.BinOp) and isinstance(l.op, ast.Sub) \
+                        and isinstance(l.left, ast.Subscript) and isinstance(l.right, ast.Subscript) and norm(l.left.value) == norm(l.right.value) == Ep:
+                    out.append((c, l.left.slice, l.right.slice))
+                elif isinstance(op, ast.Lt) and norm(r_) == thr_p and isinstance(l, ast.Call) and call_name(l) in ("abs", "np.abs") and l.args \
+                        and isinstance(l.args[0], ast.BinOp) and isinstance(l.args[0].op, ast.Sub) and isinstance(l.args[0].left, ast.Subscript) \
+                        and isinstance(l.args[0].right, ast.Subscript) and norm(l.args[0].left.value) == norm(l.args[0].right.value) == Ep:
+                    out.append((c, l.args[0].left.slice, l.args[0].right.slice))
+        return out
+
+    def sym_env(x):
+        if isinstance(x, ast.Name):
+            return Rat.sym(x.id)
+        if isinstance(x, (ast.Call, ast.Attribute, ast.Subscript)):
+            return Rat.sym(norm(x))
+        return None
+
+    def neighbour_gap(a: ast.AST, b: ast.AST) -> Optional[bool]:
+        try:
+            ia, ib = to_rat(a, sym_env), to_rat(b, sym_env)
+        except Exception:
+            return None
+        return (ia - ib).equals(Rat.const(1)) or (ib - ia).equals(Rat.const(1))
+
+    def resolved_test(t: ast.AST, at_stmt: ast.stmt, keep: set) -> ast.AST:
+        saved = S.keep_names
+        S.keep_names = set(keep)
+        try:
+            return S.resolve(t, cfg.node(at_stmt))
+        finally:
+            S.keep_names = saved
+
+    def cond_has_gap(cs, pol: bool) -> bool:
+        for t_, p_, _n in cs:
+            if p_ is pol:
+                try:
+                    e_ = ast.parse(t_, mode="eval").body
+                except SyntaxError:
+                    continue
+                if isinstance(e_, ast.Compare) and gap_tests(e_) and gap_tests(e_)[0][0] is e_:
+                    return True
+        return False
+
+    def cond_inc(cs) -> Optional[bool]:
+        for t_, p_, _n in cs:
+            if t_ == inc_p:
+                return p_
+        return None
+
+    edge_loops = [l for l in stmts(f.node) if isinstance(l, ast.For) and isinstance(l.iter, ast.Call) and call_name(l.iter) == "range"
+                  and any(mask_store(x) is not None for x in ast.walk(l) if isinstance(x, ast.stmt))
+                  and not any(isinstance(p_, (ast.For, ast.While)) for p_ in enclosing_all(pm, l, (ast.For, ast.While)))]
     if len(edge_loops) != 2:
         raise AnalysisError(f"select_window_degen: expected two window-edge loops, found {len(edge_loops)}")
     for lp in edge_loops:
-        direction = "upper" if "NB" in norm(lp.iter) else "lower"
+        rng = lp.iter.args
+        direction = "lower" if len(rng) == 3 and norm(rng[2]).replace(" ", "") in ("-1", "(-1)") else "upper"
         r2.instance(f"{f.short}: {direction} edge: for {norm1(lp.target)} in {norm1(lp.iter)}")
-        ifs = [s for s in ast.walk(lp) if isinstance(s, ast.If) and norm(s.test) == "include_degen"]
-        if len(ifs) != 1:
-            raise AnalysisError(f"select_window_degen ({direction}): `if include_degen:` arm not found")
-        inc, exc = ifs[0].body, ifs[0].orelse
-        gap_if = enclosing(pm, ifs[0], ast.If)
-        r2.check(gap_if is not None and "< thresh" in norm(gap_if.test) and gap_if.orelse and
-                 any(isinstance(x, ast.Break) for x in gap_if.orelse), f"{direction}: the walk stops at the first gap ≥ thresh",
-                 f, gap_if or lp, f"{direction} edge: the walk does not stop at the first non-degenerate gap")
-        # include arm: store True to the neighbour, no break
-        inc_stores = [s for s in inc if isinstance(s, ast.Assign) and norm(s.targets[0].value if isinstance(s.targets[0], ast.Subscript) else s.targets[0]) == "inside"
-                      and norm(s.value) == "True"]
-        r2.check(bool(inc_stores) and not any(isinstance(x, ast.Break) for s in inc for x in ast.walk(s)),
-                 f"{direction}/include: neighbour added and the walk continues through the multiplet", f, ifs[0],
-                 f"{direction} edge, include_degen=True: the walk stops after adding one band; a triplet cut by the window "
-                 f"edge is only partly included")
-        # exclude arm
-        stores = [s for s in ast.walk(ifs[0]) if isinstance(s, ast.Assign) and in_body(exc, s)
-                  and isinstance(s.targets[0], ast.Subscript) and norm(s.targets[0].value) == "inside" and norm(s.value) == "False"]
+        own = [x for x in ast.walk(lp) if isinstance(x, ast.stmt) and x is not lp]
+        inner_loops = [x for x in own if isinstance(x, (ast.While, ast.For))]
+        brks = [x for x in own if isinstance(x, ast.Break) and not any(l2 is not lp for l2 in enclosing_all(pm, x, (ast.For, ast.While)) if l2 in inner_loops)]
+        # (a) the outer walk ends at the first gap ≥ thresh
+        stop = [b for b in brks if cond_has_gap(S.conditions(b), False)]
+        r2.check(bool(stop), f"{direction}: the walk stops at the first gap ≥ thresh", f, stop[0] if stop else lp,
+                 f"{direction} edge: the walk does not stop at the first non-degenerate gap")
+        # (b) include arm
+        inc_stores = [x for x in own if mask_store(x) is True and cond_inc(S.conditions(x)) is True and cond_has_gap(S.conditions(x), True)]
+        r2.expect(bool(inc_stores), f"{direction}/include: store located", f, lp,
+                  f"select_window_degen ({direction}): no `mask[...] = True` under `{inc_p}` and a gap < thresh test found")
+        for x in inc_stores:
+            cont = cfg.reachable(cfg.node(x), [cfg.node(lp)], avoiding=[cfg.node(b) for b in brks])
+            r2.check(cont, f"{direction}/include: neighbour added and the walk continues through the multiplet", f, x,
+                     f"{direction} edge, include_degen=True: the walk stops after adding one band; a triplet cut by the window "
+                     f"edge is only partly included")
+        # (c) exclude arm
+        exc_stores = [x for x in own if mask_store(x) is False and cond_inc(S.conditions(x)) is False]
+        r2.expect(bool(exc_stores), f"{direction}/exclude: store located", f, lp,
+                  f"select_window_degen ({direction}): no `mask[...] = False` under `not {inc_p}` found")
         whole = False
-        for s in stores:
-            if isinstance(s.targets[0].slice, ast.Slice):
+        for x in exc_stores:
+            if isinstance(x.targets[0].slice, ast.Slice):
                 whole = True
-            inner = [l for l in enclosing_all(pm, s, (ast.While, ast.For)) if in_body(exc, l)]
-            for l in inner:
-                cond = norm(l.test) if isinstance(l, ast.While) else norm(l)
-                if "thresh" in cond:
+            for l2 in [l2 for l2 in enclosing_all(pm, x, (ast.While, ast.For)) if l2 in inner_loops]:
+                if not isinstance(l2, ast.While):
+                    if "thresh" in norm(l2):
+                        whole = True
+                    continue
+                assigned = {n.id for st_ in ast.walk(l2) for n in ast.walk(st_) if isinstance(n, ast.Name) and isinstance(n.ctx, ast.Store)}
+                rt = resolved_test(l2.test, l2, assigned | {lp.target.id if isinstance(lp.target, ast.Name) else ""})
+                gts = gap_tests(rt)
+                if gts:
                     whole = True
-        # the inner walk must follow NEIGHBOUR gaps of the walking index (E[j] − E[j−1]), not distances to the edge band
-        for s_ in stores:
-            for l in [l for l in enclosing_all(pm, s_, ast.While) if in_body(exc, l)]:
-                walkers = {a.target.id for a in ast.walk(l) if isinstance(a, ast.AugAssign) and isinstance(a.target, ast.Name)}
-                gaps = [c for c in ast.walk(l.test) if isinstance(c, ast.Compare) and "thresh" in norm(c)
-                        and isinstance(c.left, ast.BinOp) and isinstance(c.left.op, ast.Sub)]
-                for c in gaps:
-                    a, b = c.left.left, c.left.right
-                    oknb = isinstance(a, ast.Subscript) and isinstance(b, ast.Subscript) and norm(a.value) == norm(b.value) == "E"
-                    if oknb:
-                        from ..algebra import Rat, to_rat
-                        env_ = lambda x: Rat.sym(x.id) if isinstance(x, ast.Name) else None
-                        ia, ib = to_rat(a.slice, env_), to_rat(b.slice, env_)
-                        oknb = (ia - ib).equals(Rat.const(1)) and bool(walkers) and \
-                            all(w in ia.n.symbols() and w in ib.n.symbols() for w in walkers)
-                    r2.check(oknb, f"{direction}/exclude: the walk tests the gap between neighbouring bands of the walking index", f, l,
+                for c, a, b in gts:
+                    oknb = neighbour_gap(a, b)
+                    syms = {n.id for n in ast.walk(a) if isinstance(n, ast.Name)} | {n.id for n in ast.walk(b) if isinstance(n, ast.Name)}
+                    walkers = assigned & syms
+                    fixed = {n_ for n_ in syms if n_ not in assigned and du.is_local(n_)}
+                    r2.check(bool(oknb) and bool(walkers) and not fixed,
+                             f"{direction}/exclude: the walk tests the gap between neighbouring bands of the walking index", f, l2,
                              f"{direction} edge: the inner walk tests `{norm1(c)}`: not the gap between neighbouring bands "
-                             f"E[j] − E[j−1] of the walking index {sorted(walkers)}; a chain of bands each closer than thresh to its "
-                             f"neighbour but farther from the edge band is split")
-        r2.check(whole, f"{direction}/exclude: the whole cut multiplet is removed", f, stores[0] if stores else ifs[0],
-                 f"{direction} edge, include_degen=False: only one band (`{norm1(stores[0]) if stores else '?'}` then break) is "
+                             f"E[j] − E[j−1] of the walking index {sorted(assigned & syms) or sorted(assigned)}; a chain of bands each closer than "
+                             f"thresh to its neighbour but farther from the edge band is split")
+        r2.check(whole, f"{direction}/exclude: the whole cut multiplet is removed", f, exc_stores[0] if exc_stores else lp,
+                 f"{direction} edge, include_degen=False: only one band (`{norm1(exc_stores[0]) if exc_stores else '?'}` then break) is "
                  f"removed; for a multiplet of three or more bands cut by the window edge the remaining members stay inside "
                  f"and the multiplet is split")
 
@@ -204,22 +372,47 @@ def run(ctx) -> None:
 
     # ---------------------------------------------------------------- R15.4
     r4 = ctx.rule("R15.4", "wannierise: frozen window excludes, outer window includes cut multiplets", min_instances=2)
-    w = idx.function(WAN, "wannierise")
-    for s in stmts(w.node):
-        if isinstance(s, ast.Assign) and "select_window_degen" in norm(s.value):
-            kw = None
-            for c in ast.walk(s.value):
-                if isinstance(c, ast.Call) and call_name(c) == "dict":
-                    kw = {k.arg: norm(k.value) for k in c.keywords}
-            if kw is None:
-                raise AnalysisError("wannierise: kwargs of select_window_degen not a dict(...) literal")
-            r4.instance(f"{w.short}: {norm1(s.targets[0])} ← {kw}")
-            if "froz" in kw.get("win_min", ""):
-                r4.check(kw.get("include_degen") == "False", "frozen window leaves cut multiplets out", w, s,
-                         "the frozen window is selected with include_degen=True: states outside the frozen window are frozen")
-            elif "outer" in kw.get("win_min", ""):
-                r4.check(kw.get("include_degen") == "True", "outer window takes cut multiplets in", w, s,
-                         "the outer window is selected with include_degen=False: a multiplet cut by the window edge is split")
+    from .common import const_of
+    w = inline_private_helpers(idx, idx.function(WAN, "wannierise"))
+    WS = Sem(idx, w)
+    swd = idx.function(UT, "select_window_degen")
+    sp = swd.params
+    dflt = {}
+    a_ = swd.node.args
+    for k_, d_ in zip(a_.args[len(a_.args) - len(a_.defaults):], a_.defaults):
+        dflt[k_.arg] = d_
+    sel = []   # (site node, {param: expr})
+    for c in ast.walk(w.node):
+        if not isinstance(c, ast.Call):
+            continue
+        if call_name(c).split(".")[-1] == "select_window_degen":
+            kw = {sp[i_]: a for i_, a in enumerate(c.args) if i_ < len(sp)}
+            kw.update({k.arg: k.value for k in c.keywords if k.arg})
+            sel.append((c, kw))
+        elif c.args and isinstance(c.args[0], ast.Name) and c.args[0].id == "select_window_degen":
+            kd = kwarg(c, "kwargs", 99)
+            if kd is not None:
+                kd = WS.resolve(kd, WS.du.node_of_expr(c))
+            if isinstance(kd, ast.Call) and call_name(kd) == "dict" and not kd.args:
+                sel.append((c, {k.arg: k.value for k in kd.keywords if k.arg}))
+            elif isinstance(kd, ast.Dict) and all(isinstance(k, ast.Constant) for k in kd.keys):
+                sel.append((c, {k.value: v for k, v in zip(kd.keys, kd.values)}))
+            else:
+                r4.expect(False, "", w, c, f"wannierise: cannot read the keyword arguments handed to select_window_degen through `{norm1(c, 80)}`")
+    for c, kw in sel:
+        at_ = WS.du.node_of_expr(c)
+        res = {k: norm(WS.resolve(v, at_)) for k, v in kw.items() if k in ("win_min", "win_max", "include_degen")}
+        inc = res.get("include_degen", norm(dflt["include_degen"]) if "include_degen" in dflt else None)
+        wmin = res.get("win_min", "")
+        r4.instance(f"{w.short}: select_window_degen(win_min={wmin}, win_max={res.get('win_max')}, include_degen={inc})")
+        if "froz" in wmin:
+            r4.check(inc == "False", "frozen window leaves cut multiplets out", w, c,
+                     "the frozen window is selected with include_degen=True: states outside the frozen window are frozen")
+        elif "outer" in wmin:
+            r4.check(inc == "True", "outer window takes cut multiplets in", w, c,
+                     "the outer window is selected with include_degen=False: a multiplet cut by the window edge is split")
+        else:
+            r4.expect(False, "", w, c, f"wannierise: window `{wmin}` is neither the frozen nor the outer window")
 
 
 from ..selftest import V  # noqa: E402
@@ -248,6 +441,15 @@ SELFTEST = [
     V("trace misses the last band of the group", TAB, "inn = np.arange(n[0], n[1])", "inn = np.arange(n[0], n[1] - 1)", "fire", "R15.3"),
     V("frozen window includes cut multiplets", WAN, "kwargs=dict(win_min=froz_min, win_max=froz_max, include_degen=False))",
       "kwargs=dict(win_min=froz_min, win_max=froz_max, include_degen=True))", "fire", "R15.4"),
+    V("find_degen loses the len(arr) sentinel", UT, "    A = [0, ] + list(A) + [len(arr)]\n", "    A = [0, ] + list(A)\n", "fire", "R15.1"),
+    V("outer window relies on the include_degen=False default", WAN, "kwargs=dict(win_min=outer_min, win_max=outer_max, include_degen=True))",
+      "kwargs=dict(win_min=outer_min, win_max=outer_max))", "fire", "R15.4"),
+    V("Kramers filter applied unconditionally", TET, "    if degen_Kramers:\n        borders = [i for i in borders if i % 2 == 0]\n",
+      "    borders = [i for i in borders if i % 2 == 0]\n", "fire", "R15.1"),
+    V("neutral: find_degen as one starred list", UT, "    A = np.where(arr[1:] - arr[:-1] > degen_thresh)[0] + 1\n    A = [0, ] + list(A) + [len(arr)]\n",
+      "    A = [0, *(np.where(arr[1:] - arr[:-1] > degen_thresh)[0] + 1), len(arr)]\n", "silent"),
+    V("neutral: get_borders built step by step", TET, "    borders = [0] + list(np.where((A[1:] - A[:-1]) > degen_thresh)[0] + 1) + [len(A)]\n",
+      "    gaps = A[1:] - A[:-1]\n    borders = [0]\n    borders.extend(np.flatnonzero(gaps > degen_thresh) + 1)\n    borders.append(len(A))\n", "silent"),
     V("neutral: np.diff spelling in find_degen", UT, "A = np.where(arr[1:] - arr[:-1] > degen_thresh)[0] + 1",
       "A = np.where(np.diff(arr) > degen_thresh)[0] + 1", "silent"),
 ]
